@@ -229,7 +229,7 @@ var localfsSyscalls = []string{"open", "openat", "openat2", "creat", "mkdir", "m
 	"pwritev2", "read", "pread64", "readv", "preadv", "ioctl", "unlink", "unlinkat", "rmdir", "stat", "lstat",
 	"newfstatat", "statx", "access", "faccessat", "faccessat2", "readlink", "readlinkat", "link", "linkat",
 	"symlink", "symlinkat", "truncate", "ftruncate", "fallocate", "copy_file_range", "sendfile", "utimensat",
-	"setxattr", "lsetxattr", "fsetxattr", "chdir", "fchdir", "dup", "dup2", "dup3", "getdents64", "mmap"}
+	"setxattr", "lsetxattr", "fsetxattr", "chdir", "fchdir", "dup", "dup2", "dup3", "getdents64"}
 
 // the ") = " that separates arguments from the return value (strace pads it with spaces)
 var localfsRetRe = regexp.MustCompile(`\)\s+= `)
@@ -633,10 +633,6 @@ func localfsNormalise(world, cwd string, raws []localfsRaw, nops int) []localfsO
 				// best effort in the code under test: the result is ignored there, recorded here
 				ev.Kind, ev.A, ev.B = "setimm", b2i(strings.Contains(arg(2), "FS_IMMUTABLE_FL")), b2i(ok)
 			}
-		case "mmap":
-			if arg(4) == "-1" { // anonymous memory: not a file operation
-				continue
-			}
 		}
 		if r.Ret == "?" {
 			ev.Kind = "killed-in:" + r.Name
@@ -685,6 +681,9 @@ func (g *localfsRunner) localfsRunChild(world, dir string, ops []localfsOp) ([]l
 	if kill > 0 {
 		// the kill op runs in its own child, so counting fsyncs from process start is exact
 		args = append(args, "-e", fmt.Sprintf("inject=fsync:signal=KILL:when=%d", kill))
+	} else {
+		// stop the tracee only at the traced system calls (much cheaper; injection needs the plain mode)
+		args = append([]string{"--seccomp-bpf"}, args...)
 	}
 	args = append(args, "--", g.exe, "localfs", "-child", specPath)
 	cmd := exec.Command("strace", args...)
